@@ -118,15 +118,43 @@ func canonOf(f *ssa.Function) *canonFn {
 	}
 	as := namedAllocs(f)
 	if len(fz.Locals) == len(as) {
-		same := true
-		for i, a := range as {
-			if _, t := split2(fz.Locals[i]); t != a.Type().String() {
-				same = false
+		// 1. a local that still has its reviewed name and type is itself, wherever it
+		//    is declared now (moving a declaration is not a rename)
+		left := map[string][]int{}
+		for i, e := range fz.Locals {
+			left[e] = append(left[e], i)
+		}
+		usedF := map[int]bool{}
+		var restA []*ssa.Alloc
+		for _, a := range as {
+			k := a.Comment + "|" + a.Type().String()
+			if q := left[k]; len(q) > 0 {
+				usedF[q[0]] = true
+				left[k] = q[1:]
+				c.local[a] = a.Comment
+			} else {
+				restA = append(restA, a)
+			}
+		}
+		// 2. the others were renamed: reviewed names of the remaining entries, in
+		//    source order, when the types agree
+		var restF []string
+		for i, e := range fz.Locals {
+			if !usedF[i] {
+				restF = append(restF, e)
+			}
+		}
+		same := len(restF) == len(restA)
+		if same {
+			for i, a := range restA {
+				if _, t := split2(restF[i]); t != a.Type().String() {
+					same = false
+				}
 			}
 		}
 		if same {
-			for i, a := range as {
-				n, _ := split2(fz.Locals[i])
+			for i, a := range restA {
+				n, _ := split2(restF[i])
 				c.local[a] = n
 			}
 		}
